@@ -183,6 +183,8 @@ theorem inv_exec (h : Inv c s) (op : Op) (hw : op.wellAddressed c = true) : Inv 
   | guardStart n p => exact inv_guardStart h n p hw
   | guardStop n => exact inv_stopClear h _
   | disconnect => exact inv_disconnect h
+  | exitWith w => exact inv_disconnect h
+  | connect => exact h.congr rfl rfl
 
 theorem inv_step (h : Inv c s) (op : Op) : Inv c (step c s op).1 := by
   unfold step
